@@ -294,7 +294,10 @@ class ComplexValue(ScalarValue):
 
     def __init__(self, value):
         """Initialise."""
-        ScalarValue.__init__(self, complex(value))
+        value = complex(value)
+        # Normalise signed zeros: -0.0 == 0.0, but the repr (and
+        # thereby the hash) would differ
+        ScalarValue.__init__(self, complex(value.real + 0.0, value.imag + 0.0))
 
     def modulus(self):
         """Get the modulus."""
